@@ -4,6 +4,8 @@ import vf
 
 MODEL_VOS = ["Base/Conv.vo", "DD/Table.vo", "DD/TableExtra.vo", "DD/Sem.vo", "Num/I64.vo", "DD/FamSpec.vo", "DD/ZbddOps.vo", "DD/ZbddVars.vo", "Mgr/SortOrder.vo", "Mgr/LevelSwap.vo"]
 DRIVER_EXTRA = ["dd_types.ml", "order.ml", "zchain.ml", "pick.ml", "zfam.ml", "lswap.ml"]
+# case kinds of other harnesses that share a corpus directory with DD cases (h_nat of C12)
+NON_DD_KINDS = ("nat", "sat64", "sat128", "f64")
 
 
 class DDCtx(vf.Ctx):
@@ -52,7 +54,7 @@ def run_dd(ctx, props, cases, rule, allowed_axioms=(), drv_args=(), env=None, as
             if fn.endswith(".case"):
                 # (a corpus directory may also hold cases of the property's other harnesses)
                 corpus += [("corpus-" + h, ops) for h, ops in vf.parse_cases(open(os.path.join(corpus_dir, fn)).read())
-                           if " kind=" in h]
+                           if " kind=" in h and h.split(" kind=")[1].split()[0] not in NON_DD_KINDS]
     cases = corpus + list(cases)
     ok, bad, digests = vf.lockstep_sharded(ctx, binp, drv, cases, nshards=nshards, env=env, drv_args=args)
     ctx.digests = digests
